@@ -26,8 +26,9 @@ RULES = {
     "C06-F1": "item writers: delimiter before the first data write on every path; every path that wrote data leaves output_count incremented",
     "C06-F1b": "the ',' write is guarded by output_count > 0; the block data call counts the item exactly when remaining reaches 0 on every non-error path",
     "C06-F2": "no unit separator ';' is written on a path that afterwards reaches the handler invocation",
-    "C06-F5": "every ';' write is guarded by !first_output; first_output is cleared only after the handler was invoked and only by processCommand",
+    "C06-F5": "every ';' write is guarded by !first_output; first_output is cleared only after the handler was invoked and only by processCommand, and on every path where a query's handler succeeded without error",
     "C06-F3": "first_output set before the unit loop; exactly one writeNewLine on every path from the loop to the return; line ending and flush on the same !first_output edge",
+    "C06-F7": "the item counter that decides the comma is at least as wide as the element count of the array writers (it cannot wrap inside one unit)",
     "C06-F6": "the conditions that decide 'this unit responded' read only per-unit state that was re-established for this unit",
     "C06-F4": "separators are exactly \",\" and \";\" of length 1; the terminator is SCPI_LINE_ENDING with its own length",
 }
@@ -286,6 +287,51 @@ def rule_f2_f5(ck, prog, S):
             else:
                 ck.violated("C06-F5", st, K.loc(f, node),
                             "unexpected writer of first_output (`%s` in %s)" % (node.src, f.name))
+    # converse: a unit whose handler succeeded without error and that is a query counts as a response
+    from sa import paths as P
+    sums = P.summarize(proc)
+    st = K.site(proc, "responding-unit-marks-message", 0)
+    bad = None
+    nresp = 0
+    for ps in sums:
+        ci = [i for i, e in enumerate(ps.events) if e[0] == "call" and e[1] in cbs]
+        if not ci:
+            continue
+        after = ps.events[ci[0] + 1:]
+        polq = {e[2] for e in ps.events if e[0] == "branch" and e[1].get("path") == "is_query"}
+        if len(polq) > 1:
+            continue                     # is_query is never reassigned: mixed decisions are infeasible
+        br = [(e[1], e[2]) for e in after if e[0] == "branch"]
+        ok = [pol for a, pol in br if a.k == "BinaryOperator" and a.get("op") in ("!=", "==") and a.child(0).strip_all_casts() is cbs[0]]
+        cb_ok = None
+        for a, pol in br:
+            if a.k == "BinaryOperator" and a.get("op") in ("!=", "==") and any(x is cbs[0] for x in (a.child(0).strip_all_casts(), a.child(1).strip_all_casts())):
+                cb_ok = (pol is False) if a["op"] == "!=" else (pol is True)
+                break
+        if cb_ok is not True:
+            continue
+        err = [pol for a, pol in br if (a.get("path") or "").endswith("->cmd_error")]
+        if not err or err[0] is not False:
+            continue
+        if polq != {True}:
+            continue
+        nresp += 1
+        fo = [pol for a, pol in br if (a.get("path") or "").endswith("->first_output")]
+        cleared = any(e[0] == "store" and (C.store_target(e[1]).get("path") or "").endswith("->first_output")
+                      and C.const_of(e[1].child(1)) == 0 for e in after)
+        if not cleared and not (fo and fo[0] is False):
+            extra = [(a.src, pol) for a, pol in br if not ((a.get("path") or "").endswith(("->cmd_error", "->first_output"))
+                                                         or a.get("path") == "is_query" or a.k == "BinaryOperator")]
+            bad = bad or (ps, extra)
+    if nresp == 0:
+        ck.anchor_lost("C06-F5", "no path of processCommand with handler OK, no error and is_query")
+    elif bad:
+        ck.violated("C06-F5", st, K.loc(proc, bad[0].ret_node),
+                    "a query whose handler succeeded without error can leave first_output set: its response is then not "
+                    "counted (no terminator after it, no ';' before the next response)",
+                    {"path": bad[0].describe(), "extra_conditions": bad[1]})
+    else:
+        ck.holds("C06-F5", st, K.loc(proc), "%d paths (handler OK, no error, query): each ends with first_output == FALSE" % nresp)
     ck.analysed(proc, parse)
 
 
@@ -429,6 +475,33 @@ def rule_f3_f4(ck, prog, S):
     ck.analysed(parse, wnl, wd)
 
 
+def rule_f7(ck, prog):
+    """the comma decision reads the per-unit item counter: it must be able to count every item one unit can produce"""
+    rec = prog.records.get("_scpi_t")
+    wd = prog.fn("writeDelimiter")
+    arr = [f for f in prog.functions.values() if f.name.startswith("SCPI_ResultArray") and len(f.params) >= 3]
+    if not rec or wd is None or not arr:
+        ck.anchor_lost("C06-F7", "struct _scpi_t / writeDelimiter / SCPI_ResultArray*")
+        return
+    read = {n.get("member") for n in wd.nodes.values() if n.k == "MemberExpr" and n.get("record") == "_scpi_t"}
+    flds = [q for q in rec["fields"] if q["name"] in read and q["type"].get("tk") == "int"]
+    st = K.site(wd, "item-counter-width", 0)
+    if not flds:
+        ck.anchor_lost("C06-F7", "integer field of scpi_t read by writeDelimiter")
+        return
+    need = max((p_["type"].get("bits") or 0) for f in arr for p_ in f.params if p_["name"] == "count")
+    fld = flds[0]
+    have = fld["type"].get("bits") or 0
+    ck.analysed(wd)
+    if have < need:
+        ck.violated("C06-F7", st, K.loc(wd),
+                    "the item counter `%s` that decides the comma has %d bits, but one unit can produce as many items as an array "
+                    "count of %d bits says: after 2^%d items of one unit the counter is negative/zero again and items are written "
+                    "without a separator" % (fld["name"], have, need, have - 1))
+    else:
+        ck.holds("C06-F7", st, K.loc(wd), "`%s` has %d bits, array counts have %d" % (fld["name"], have, need))
+
+
 def run(ck, fb, tier):
     for cfg in fb.configs:
         ck.config = cfg
@@ -439,6 +512,7 @@ def run(ck, fb, tier):
         rule_f2_f5(ck, prog, S)
         rule_f6(ck, prog, S)
         rule_f3_f4(ck, prog, S)
+        rule_f7(ck, prog)
     ck.assume("handlers emit results only through the SCPI_Result* API")
     if tier == "thorough":
         K.cross_config(ck, fb, "C06-XC", ['processCommand', 'writeDelimiter', 'writeNewLine', 'SCPI_ResultArbitraryBlockData', 'SCPI_ResultText'])
